@@ -1983,6 +1983,7 @@ class RawAlgorithmsMixIn:
         for p in range(P):
             b = [0,N]
             L_tilde_data = A_data[:,p].copy()
+            Q_data[:,p] = 0
             Q_data[0,p] = numpy.eye(N)
             for D in range(DT):
                 # print 'relaxed problem of order d=',D+1
